@@ -365,6 +365,8 @@ class Evaluator:
         s.opaque_fns: set = set()          # {(module short, function name)} kept as uninterpreted functions
         s.opaque_classes: set = set()      # class names whose instances stay atoms
         s.integer: set = set()             # atoms declared integer-valued (mod folding)
+        s.self_class = None                # (Module, ClassDef) of the atom `self_atom`: its private helper methods are inlined
+        s.self_atom = 'self'
         s.mod_facts: dict = {}             # (poly key, modulus) -> residue, declared by a rule for a case split
         s.assume_finite = True             # np.isfinite(x) folds to True (recorded by the rules as an assumption)
         s.raises: list = []                # pruned raise branches: guard, polarity, exception name, path condition
@@ -374,7 +376,7 @@ class Evaluator:
     def fresh(s):
         """evaluator with the same configuration but none of the facts / stores learnt while evaluating code (used for specifications)"""
         e = Evaluator(s.prog, s.real, s._init_facts, s.depth_limit)
-        e.opaque_fns = set(s.opaque_fns); e.opaque_classes = set(s.opaque_classes); e.integer = set(s.integer); e.mod_facts = dict(s.mod_facts); e.assume_finite = s.assume_finite
+        e.opaque_fns = set(s.opaque_fns); e.opaque_classes = set(s.opaque_classes); e.self_class = s.self_class; e.self_atom = s.self_atom; e.integer = set(s.integer); e.mod_facts = dict(s.mod_facts); e.assume_finite = s.assume_finite
         return e
 
     def learn(s, g, polarity: bool, exc=None, top=True):
@@ -918,6 +920,12 @@ class Evaluator:
         if isinstance(recv, Ref) and recv.kind in ('module', 'ext', 'class'):
             return s.apply(s.getattr(recv, attr, mod, depth), args, kw, mod, depth, node)
         if attr == 'conjugate' and not args: return s.npcall('conj', [recv], {})
+        if (s.self_class is not None and isinstance(recv, Poly) and recv.as_atom() == s.self_atom and attr.startswith('_') and not attr.startswith('__')
+                and depth < s.depth_limit):
+            # private helper of the class under analysis: inline it (public queries of `self` stay atoms)
+            mem = s.prog.find_member(s.self_class[0], s.self_class[1], attr)
+            if mem and isinstance(mem[1], ast.FunctionDef) and not s.prog.is_property(mem[1]):
+                return s.call_fn(mem[1], mem[0], [recv] + list(args), kw, {'__parent__': None}, depth + 1)
         if isinstance(recv, Rec):
             fv = s.getattr(recv, attr, mod, depth)
             if isinstance(fv, Closure): return s.apply(fv, args, kw, mod, depth, node)
@@ -1210,6 +1218,25 @@ class Evaluator:
                 if st.orelse and _always_raises(st.orelse):
                     s.learn(g, True, _exc_name(st.orelse[-1]))
                     return s.block(st.body + rest, env, mod, depth)
+                if not _can_leave(st.body) and not _can_leave(st.orelse):
+                    # neither branch returns or raises: evaluate both, merge what they assign into conditional VALUES, go on once
+                    e1, e2 = _fork(env), _fork(env)
+                    st0 = dict(s.stores)
+                    s._undecided += 1
+                    try:
+                        s._pc.append((g, True)); s.block(st.body, e1, mod, depth)
+                        s._pc[-1] = (g, False); st1 = s.stores; s.stores = dict(st0)
+                        s.block(st.orelse, e2, mod, depth); s._pc.pop(); st2 = s.stores
+                    finally:
+                        s._undecided -= 1
+                    merged = {}
+                    for k in set(st1) | set(st2):
+                        a, b = st1.get(k, st0.get(k)), st2.get(k, st0.get(k))
+                        if a is None or b is None: merged[k] = a if b is None else b
+                        else: merged[k] = a if same(a, b) else s.mkcond(g, a, b)
+                    s.stores = merged
+                    _merge(env, g, e1, e2, s)
+                    continue
                 e1, e2 = _fork(env), _fork(env)
                 st0 = dict(s.stores)
                 s._undecided += 1
@@ -1401,6 +1428,14 @@ def _exc_name(r):
     return ast.unparse(e).split('.')[-1]
 
 
+def _can_leave(stmts):
+    for st in stmts:
+        for n in ast.walk(st):
+            if isinstance(n, (ast.Return, ast.Raise, ast.Break, ast.Continue)): return True
+            if isinstance(n, (ast.FunctionDef, ast.Lambda)): break
+    return False
+
+
 def _always_raises(stmts):
     return bool(stmts) and isinstance(stmts[-1], ast.Raise) and not any(isinstance(n, ast.Return) for st in stmts for n in ast.walk(st))
 
@@ -1447,11 +1482,12 @@ def _relevel(v, old, new):
 
 
 # ====================================================================== comparison helpers
-def paths_of(v, pc=()):
+def paths_of(v, pc=(), _top=True):
     """flatten a Cond tree into [(frozenset of (guardkey, bool), leaf)]"""
+    if _top: v = hoist(v)
     if isinstance(v, Cond):
         gk = repr(tkey(v.g))
-        return paths_of(v.a, pc + ((gk, True),)) + paths_of(v.b, pc + ((gk, False),))
+        return paths_of(v.a, pc + ((gk, True),), False) + paths_of(v.b, pc + ((gk, False),), False)
     return [(frozenset(pc), v)]
 
 
@@ -1491,6 +1527,36 @@ def term_equal(a, b) -> bool:
     return same(a, b)
 
 
+def hoist(v, _depth=0):
+    """lift conditionals out of records / tuples / lists / dict values:  Rec(f = g ? a : b)  ==  g ? Rec(f = a) : Rec(f = b)"""
+    if _depth > 12: return v
+    if isinstance(v, Cond):
+        return Cond(v.g, hoist(v.a, _depth + 1), hoist(v.b, _depth + 1))
+    if isinstance(v, Rec):
+        for k, x in v.f.items():
+            hx = hoist(x, _depth + 1)
+            if isinstance(hx, Cond):
+                fa = dict(v.f); fa[k] = hx.a; fb = dict(v.f); fb[k] = hx.b
+                return hoist(Cond(hx.g, Rec(v.cls, fa, v.clsref), Rec(v.cls, fb, v.clsref)), _depth + 1)
+        return v
+    if isinstance(v, (tuple, list)):
+        for i, x in enumerate(v):
+            hx = hoist(x, _depth + 1)
+            if isinstance(hx, Cond):
+                a = list(v); a[i] = hx.a; b = list(v); b[i] = hx.b
+                t = type(v)
+                return hoist(Cond(hx.g, t(a), t(b)), _depth + 1)
+        return v
+    if isinstance(v, dict):
+        for k, x in v.items():
+            hx = hoist(x, _depth + 1)
+            if isinstance(hx, Cond):
+                a = dict(v); a[k] = hx.a; b = dict(v); b[k] = hx.b
+                return hoist(Cond(hx.g, a, b), _depth + 1)
+        return v
+    return v
+
+
 def _exclusive(d):
     """two equality guards taken True whose polynomials differ by a non-zero constant cannot hold together"""
     eqs = [g for g, v in d.items() if v is True and isinstance(g, tuple) and len(g) >= 4 and g[:3] == ('opq', 'cmp', 'Eq') and isinstance(g[3], tuple) and g[3] and g[3][0] == 'poly']
@@ -1503,10 +1569,11 @@ def _exclusive(d):
     return False
 
 
-def paths_keyed(v, pc=()):
+def paths_keyed(v, pc=(), _top=True):
+    if _top: v = hoist(v)
     if isinstance(v, Cond):
         gk = tkey(v.g)
-        return paths_keyed(v.a, pc + ((gk, True),)) + paths_keyed(v.b, pc + ((gk, False),))
+        return paths_keyed(v.a, pc + ((gk, True),), False) + paths_keyed(v.b, pc + ((gk, False),), False)
     return [(dict(pc), v)]
 
 
